@@ -119,6 +119,10 @@ def candidates(seed, around=None):
         body = ", ".join(n if x is None else "%s = %s" % (n, x) for n, x in ms)
         yield {"enums": ["enum Color { %s }" % body]}
     yield {"enums": ["enum Level { HIGH = 5, NONE = 0, LOW, MID = LOW + 2, TOP }"]}
+    # an expression member, an implicit one, then a literal and implicit members again: the mode (literal / expression)
+    # the generator is in must follow the LAST explicit member
+    yield {"enums": ["enum Sw { ON = 4, BOTH = ON + 3, NEXT, FIXED = 20, LAST, END }"]}
+    yield {"enums": ["enum Sw { ON = 4, FIXED = 20, BOTH = ON + 3, NEXT, LAST }"]}
     yield {"enums": ["enum class Mode { OFF, ON = 4, AUTO }", "enum Plain { P0 = 3, P1 }"]}
     yield {"enums": ["enum Color { RED = 010, GREEN, BLUE = RED + 010 }"], "language": "c"}
     import random
